@@ -59,6 +59,15 @@ pub enum Constraint {
         op: OperandClass,
         ty: tast::Ty,
     },
+    /// A type argument of a call of `function` stands for a type parameter with the bound
+    /// `trait_name`: the type must implement the trait (`in_scope`: the bounded type
+    /// parameters of the calling function, which satisfy their own bounds).
+    Implements {
+        trait_name: TastIdent,
+        ty: tast::Ty,
+        function: String,
+        in_scope: Vec<(String, Vec<String>)>,
+    },
 }
 
 /// Which types a builtin operator accepts (both operands have the same type).
@@ -491,6 +500,9 @@ pub struct GlobalTypeEnv {
     pub type_env: TypeEnv,
     pub trait_env: TraitEnv,
     pub value_env: ValueEnv,
+    /// Trait bounds of the generic functions: function -> (type parameter, traits by their
+    /// full names). Checked where the function is called.
+    pub fn_bounds: IndexMap<String, Vec<(String, Vec<String>)>>,
 }
 
 #[derive(Debug, Clone)]
@@ -555,6 +567,7 @@ impl GlobalTypeEnv {
                 funcs: IndexMap::new(),
                 extern_funcs: IndexMap::new(),
             },
+            fn_bounds: IndexMap::new(),
         }
     }
 
